@@ -226,6 +226,53 @@ def warning_sites():
     return obs
 
 
+@structural("C03", "strict-only-errors-are-not-swallowed")
+def no_swallow():
+    """A template that parses without error in strict mode must mean the same in lax/warn mode.
+    The tolerance mode changes what the expression parsers accept (strict-only guards in
+    Path.parse etc., two-run contracts above); that is harmless only if every error they raise
+    either aborts the parse (strict) or is reported through env.error -- a handler that quietly
+    drops a LiquidSyntaxError lets a strict-only rejection change the parse result instead."""
+    obs = []
+    n = 0
+    for m in load.all_modules():
+        mod = load.get_module(m)
+        pm = flow.parents(mod.tree)
+        for h in ast.walk(mod.tree):
+            if not (isinstance(h, ast.ExceptHandler) and h.type is not None):
+                continue
+            t = ast.unparse(h.type)
+            if not any(k in t for k in ("LiquidSyntaxError", "LiquidError")):
+                continue
+            n += 1
+            fns = flow.enclosing(pm, h, (ast.FunctionDef, ast.AsyncFunctionDef))
+            fn = fns[0].name if fns else "?"
+            body = ast.unparse(ast.Module(body=h.body, type_ignores=[]))
+            ok = any(isinstance(x, ast.Raise) for b in h.body for x in ast.walk(b)) or ".error(" in body
+            obs.append(flow.ob(f"{m}:{fn}:handler-for-{t.replace(' ', '')}-re-raises-or-reports-through-error()", ok, body[:120], replay_schema="code", replay_extra={"code": REPLAY_SWALLOW, "site": f"{m}:{fn}"}))
+    obs.append(flow.ob("handlers-found", n >= 3, f"{n} handlers for Liquid errors"))
+    return obs
+
+
+REPLAY_SWALLOW = r'''
+def run(m):
+    import warnings
+    from liquid import Environment, Mode
+    warnings.simplefilter("ignore")
+    bad = []
+    for src in ["{% case x %}{% when 'a', b['c'] d %}hit{% endcase %}", "{% case x %}{% when 'a' or b.c d %}hit{% endcase %}"]:
+        outs = {}
+        for mode in (Mode.STRICT, Mode.LAX, Mode.WARN):
+            try:
+                outs[mode.name] = Environment(tolerance=mode).from_string(src).render()
+            except Exception as e:
+                outs[mode.name] = "raised " + type(e).__name__
+        if not outs["STRICT"].startswith("raised") and len(set(outs.values())) != 1:
+            bad.append((src, outs))
+    return {"violated": bool(bad), "observed": bad[:2], "witness": "case-when-discards-a-strict-only-syntax-error" if bad else "no-swallow"}
+'''
+
+
 parse_block_guard_contract("C03", lambda: REPLAY_NESTING)
 
 REPLAY_NESTING = r'''
